@@ -79,8 +79,8 @@ fn one_op<const OP: u8, const SOME: bool, const N: usize, const M: usize>() {
     let fresh = x.authority().unwrap().as_bytes();
     assert!(hp == fresh.as_ptr() && hl == fresh.len(), "C11: after the call the handle does not view exactly the new authority");
     cover!(if SOME { out.len() > b.len() } else { out.len() < b.len() }, "the text grew (value set) / shrank (value removed)");
-    cover!(if SOME { out.len() < b.len() } else { out.len() == b.len() }, "shorter replacement / nothing to remove");
-    cover!(cb.path.len() > 0 && cb.query.is_some(), "path and query follow the authority");
+    cover!(if SOME { out.len() <= b.len() } else { out.len() == b.len() }, "replacement of an existing value by one not longer / nothing to remove");
+    cover!(a1 < b.len(), "text follows the authority (it has to be moved)");
     forget(x);
 }
 
@@ -108,44 +108,12 @@ pub fn c11_set_userinfo_none_n3() {
     one_op::<USERINFO, false, 3, 0>()
 }
 
-// @h prop=C11,C04 tier=thorough kind=check timeout=2400 mem=17 bound="UriRefBuf with authority, text <= 4 bytes, user info removed" encodes="RiRefBufImpl::authority_mut;AuthorityMutImpl::{set_userinfo,as_authority};parse::find_user_info;utils::{replace,allocate_range}"
-#[cfg_attr(kani, kani::proof)]
-#[cfg_attr(kani, kani::unwind(8))]
-#[cfg_attr(kani, kani::stub(std::vec::Vec::resize, crate::stubs::vec_resize))]
-pub fn c11_set_userinfo_none_n4() {
-    one_op::<USERINFO, false, 4, 0>()
-}
-
-// @h prop=C11,C04 tier=thorough kind=check timeout=3600 mem=34 bound="UriRefBuf with authority, text <= 6 bytes, user info <= 2 bytes" encodes="RiRefBufImpl::authority_mut;AuthorityMutImpl::{set_userinfo,as_authority};parse::find_user_info;utils::{replace,allocate_range}"
-#[cfg_attr(kani, kani::proof)]
-#[cfg_attr(kani, kani::unwind(10))]
-#[cfg_attr(kani, kani::stub(std::vec::Vec::resize, crate::stubs::vec_resize))]
-pub fn c11_set_userinfo_some_n6() {
-    one_op::<USERINFO, true, 6, 2>()
-}
-
-// @h prop=C11,C04 tier=thorough kind=check timeout=3600 mem=34 bound="UriRefBuf with authority, text <= 6 bytes, user info removed" encodes="RiRefBufImpl::authority_mut;AuthorityMutImpl::{set_userinfo,as_authority};parse::find_user_info;utils::{replace,allocate_range}"
-#[cfg_attr(kani, kani::proof)]
-#[cfg_attr(kani, kani::unwind(10))]
-#[cfg_attr(kani, kani::stub(std::vec::Vec::resize, crate::stubs::vec_resize))]
-pub fn c11_set_userinfo_none_n6() {
-    one_op::<USERINFO, false, 6, 0>()
-}
-
 // @h prop=C11,C04 tier=quick kind=check timeout=2400 mem=13 bound="UriRefBuf with authority, text <= 4 bytes, host <= 2 bytes" encodes="AuthorityMutImpl::{set_host,as_authority};parse::find_host;utils::replace"
 #[cfg_attr(kani, kani::proof)]
 #[cfg_attr(kani, kani::unwind(8))]
 #[cfg_attr(kani, kani::stub(std::vec::Vec::resize, crate::stubs::vec_resize))]
 pub fn c11_set_host_n4() {
     one_op::<HOST, true, 4, 2>()
-}
-
-// @h prop=C11,C04 tier=thorough kind=check timeout=3600 mem=34 bound="UriRefBuf with authority, text <= 6 bytes, host <= 2 bytes" encodes="AuthorityMutImpl::{set_host,as_authority};parse::find_host;utils::replace"
-#[cfg_attr(kani, kani::proof)]
-#[cfg_attr(kani, kani::unwind(10))]
-#[cfg_attr(kani, kani::stub(std::vec::Vec::resize, crate::stubs::vec_resize))]
-pub fn c11_set_host_n6() {
-    one_op::<HOST, true, 6, 2>()
 }
 
 // @h prop=C11,C04:thorough tier=thorough kind=check timeout=2400 mem=24 bound="UriRefBuf with authority, text <= 3 bytes, port <= 1 byte" encodes="AuthorityMutImpl::{set_port,as_authority};parse::find_port;utils::{replace,allocate_range}"
@@ -170,30 +138,6 @@ pub fn c11_set_port_some_n4() {
 #[cfg_attr(kani, kani::stub(std::vec::Vec::resize, crate::stubs::vec_resize))]
 pub fn c11_set_port_none_n3() {
     one_op::<PORT, false, 3, 0>()
-}
-
-// @h prop=C11,C04 tier=thorough kind=check timeout=2400 mem=17 bound="UriRefBuf with authority, text <= 4 bytes, port removed" encodes="AuthorityMutImpl::{set_port,as_authority};parse::find_port;utils::{replace,allocate_range}"
-#[cfg_attr(kani, kani::proof)]
-#[cfg_attr(kani, kani::unwind(8))]
-#[cfg_attr(kani, kani::stub(std::vec::Vec::resize, crate::stubs::vec_resize))]
-pub fn c11_set_port_none_n4() {
-    one_op::<PORT, false, 4, 0>()
-}
-
-// @h prop=C11,C04 tier=thorough kind=check timeout=3600 mem=34 bound="UriRefBuf with authority, text <= 6 bytes, port <= 2 bytes" encodes="AuthorityMutImpl::{set_port,as_authority};parse::find_port;utils::{replace,allocate_range}"
-#[cfg_attr(kani, kani::proof)]
-#[cfg_attr(kani, kani::unwind(10))]
-#[cfg_attr(kani, kani::stub(std::vec::Vec::resize, crate::stubs::vec_resize))]
-pub fn c11_set_port_some_n6() {
-    one_op::<PORT, true, 6, 2>()
-}
-
-// @h prop=C11,C04 tier=thorough kind=check timeout=3600 mem=34 bound="UriRefBuf with authority, text <= 6 bytes, port removed" encodes="AuthorityMutImpl::{set_port,as_authority};parse::find_port;utils::{replace,allocate_range}"
-#[cfg_attr(kani, kani::proof)]
-#[cfg_attr(kani, kani::unwind(10))]
-#[cfg_attr(kani, kani::stub(std::vec::Vec::resize, crate::stubs::vec_resize))]
-pub fn c11_set_port_none_n6() {
-    one_op::<PORT, false, 6, 0>()
 }
 
 /// Two edits through ONE handle, ops chosen symbolically, give exactly what the
